@@ -573,7 +573,36 @@ def _shard(sh, ctx):
 
 
 def controls():
-    pass
+    """Negative controls for the oracle: fabricated observations that must be flagged."""
+    class FakeSrv(object):
+        exit_status = 0
+
+        def alive(self):
+            return True
+
+        def wait_exit(self, t=0):
+            return False
+    base = {'work/a.ipynb': b'A', 'work/out.ipynb': b'OLD', 'sentinel/keep.txt': b'K'}
+    req_store = {'name': 'store', 'kind': 'store', 'path': '/api/store', 'method': 'POST', 'merged': notebooks()['b.ipynb']}
+    c = Ctx()
+    after = dict(base, **{'sentinel/keep.txt': b'CHANGED'})
+    judge(c, 'mergetool', req_store, {'status': 200, 'body': {}}, base, after, '/nonexistent', FakeSrv(), False, {})
+    if not any(f.startswith('C20|DISK|foreign-path') for f in c.viol):
+        raise HarnessError('C20 control: write outside the configured output not flagged')
+    c = Ctx()
+    req_bad = {'name': 'bad', 'kind': 'bad', 'path': '/api/store', 'method': 'POST'}
+    judge(c, 'mergetool', req_bad, {'status': 500, 'body': {}}, base, dict(base, **{'work/out.ipynb': b''}), '/nonexistent', FakeSrv(), False, {})
+    if not any(f.startswith('C20|DISK|output-changed') for f in c.viol):
+        raise HarnessError('C20 control: truncation by a failing request not flagged')
+    c = Ctx()
+    judge(c, 'mergeweb-noout-persist', req_store, {'status': 200, 'body': {}}, base, base, '/nonexistent', FakeSrv(), False, {})
+    if not any(f.startswith('C20|STORE|no-output-configured') for f in c.viol):
+        raise HarnessError('C20 control: store accepted without configured output not flagged')
+    c = Ctx()
+    req_close = {'name': 'close', 'kind': 'close', 'path': '/api/closetool', 'method': 'POST', 'code': 3}
+    judge(c, 'plain', req_close, {'status': 200, 'body': {}}, base, base, '/nonexistent', FakeSrv(), False, {})
+    if not any(f.startswith('C20|CLOSE|non-closable') for f in c.viol):
+        raise HarnessError('C20 control: close honoured by a non-closable server not flagged')
 
 
 def run(tier, seed):
